@@ -367,7 +367,7 @@ Lemma lstep_inv sg r0 m e m' :
   LInv m -> InvS (l_s m) -> InvV r0 (l_s m) -> lstep sg m e = Some m' ->
   LInv m' /\ InvS (l_s m') /\ InvV r0 (l_s m').
 Proof.
-  intros L I V H. destruct e as [t d|e|t|t]; cbn -[step] in H.
+  intros L I V H. destruct e as [t d|e|t|t|d]; cbn -[step] in H.
   - (* LPut *)
     destruct (pcs (l_s m) t) eqn:Hpc; try discriminate.
     destruct (is_empty d) eqn:He; simpl in H; [discriminate|].
@@ -459,6 +459,18 @@ Proof.
       * left. now left.
     + destruct (is_add (arg (l_s m) t)) eqn:Ha; injection H as <-; (split; [|split; auto]); auto.
       eapply Hok; eauto. discriminate.
+  - (* LPutLost *)
+    destruct (is_empty d) eqn:He; simpl in H; [discriminate|].
+    destruct (has_ent_key (dkey d) (l_inflight m)) eqn:Hk; [discriminate|]. injection H as <-.
+    split; [|split; auto]. constructor; cbn [l_s l_live l_inflight l_taint map].
+    + apply (li_nd_k m L).
+    + apply (li_nd_t m L).
+    + apply (li_act m L).
+    + intros x k b Hin. destruct (li_ent m L x k b Hin) as (A & B & C & D). rewrite live_mem_cons, A, orb_true_r. auto.
+    + apply (li_lin m L).
+    + intros k Hk' Ht'. unfold consistent. cbn [l_s l_live]. rewrite live_mem_cons.
+      assert (Hd : k <> dkey d) by (intro; subst; apply Ht'; left; reflexivity).
+      apply N.eqb_neq in Hd. rewrite Hd. simpl. apply (li_cons m L k); auto. intro Hx. apply Ht'. now right.
 Qed.
 
 Lemma lrun_inv sg r0 tr : forall m m',
